@@ -441,6 +441,19 @@ def run(ctx):
                 r4.violation(key, "%s items are pushed without the duplicate check" % (src or "dictionary/suffix"), site_of(p.outer_body, p.outer_bb))
     r4.floor(4, "helper, equality, dictionary/suffix loop, transliteration")
 
+    # ---------------- R5 the bundled tables are the data files'
+    r5 = chk.rule("C07.R5", "the auto-correct, dictionary and suffix tables are the bundled data files as deserialised (nothing pruned or rewritten after loading)",
+                  "the auto-correct entry for the typed word, when one exists, is first — 'exists' means: is in the data file")
+    data_ty = "data::Data"
+    dctor = [k for k, f in prog.fns.items() if ((f.get("impl") or {}).get("self") or "") == data_ty and not (f.get("impl") or {}).get("trait")
+             and f.get("output") in ("Self", data_ty) and f.get("inputs") == ["&config::Config"]]
+    if len(dctor) != 1:
+        r5.undecidable("load", "Data's constructor fn(&Config) -> Data not found uniquely: %s" % dctor)
+    else:
+        maps = [fl["name"] for fl in prog.struct_fields(data_ty) if fl["ty"].startswith("std::collections::HashMap<")]
+        common.verbatim_loads(r5, prog, dctor[0], data_ty, maps, "table")
+    r5.floor(3, "three tables")
+
 
 def classify_source(prog, p):
     item = p.item
